@@ -372,6 +372,22 @@ class Sim:
         self.adts = {}
         for c in crates:
             for k, v in c.statics.items():
+                if v.get("value") is not None:
+                    # decoded through the type's layout by the driver: arrays / tuples / byte-string references
+                    def build(j):
+                        if "int" in j:
+                            return int(j["int"])
+                        if "bytes" in j:
+                            return Bytes(list(j["bytes"]))
+                        if "array" in j:
+                            items = [build(x) for x in j["array"]]
+                            return Bytes(items) if items and all(isinstance(x, int) and 0 <= x < 256 for x in items) \
+                                and v.get("ty", "").startswith("[u8") else Tup(items)
+                        if "tuple" in j:
+                            return Tup([build(x) for x in j["tuple"]])
+                        return UNK
+                    self.statics[k] = build(v["value"])
+                    continue
                 if v.get("ptrs"):
                     # an array of byte-string / str slices: fat pointers (address, length) 16 bytes apart
                     ty = v.get("ty", "")
@@ -1447,6 +1463,26 @@ class Sim:
         cargs = [f, items[k]] if isinstance(f, Closure) else [items[k]]
         return self._inline_multi(fn, env, bb, t, path, depth, ff, cargs, after)
 
+    def _find_items(self, fn, env, bb, t, path, depth, cont, items, k, f):
+        """Iterator::find over the remaining items of a known array / slice iterator (the predicate takes `&item`)."""
+        if k >= len(items):
+            return [cont(Adt("std::option::Option", 0, []), path, env)]
+        ff = self.find_fn(f.path)
+        if ff is None or depth >= self.max_depth:
+            return [cont(UNK, path, env)]
+
+        def after(rv, sp, e, tr):
+            if not isinstance(rv, int):
+                return [cont(UNK, sp, e)]
+            its = [tr(x) for x in items]
+            if rv == 1:
+                return [cont(Adt("std::option::Option", 1, [its[k]]), sp, e)]
+            return self._find_items(fn, e, bb, t, sp, depth, cont, its, k + 1, tr(f))
+
+        argk = Ref([items[k]], 0, ())
+        cargs = [f, argk] if isinstance(f, Closure) else [argk]
+        return self._inline_multi(fn, env, bb, t, path, depth, ff, cargs, after)
+
     def _position_items(self, fn, env, bb, t, path, depth, cont, items, k, f):
         """Iterator::position over the remaining items of a known array / slice iterator."""
         if k >= len(items):
@@ -1613,6 +1649,12 @@ class Sim:
             nf = self._local_next(substs[0]) if substs else None
             if nf is not None:
                 return self._find_map(fn, env, bb, t, path, depth, cont, args[0], f, nf, 0)
+        if p == "std::iter::Iterator::find" and isinstance(f, (Closure, FnItem)) and isinstance(x, Adt) \
+                and x.adt == "sim::SliceIter":
+            seq, i = x.fields[0], x.fields[1]
+            elems = list(seq.b if isinstance(seq, Bytes) else seq.fields)[i:]
+            items = [e if len(x.fields) > 2 else Ref([e], 0, ()) for e in elems]
+            return self._find_items(fn, env, bb, t, path, depth, cont, items, 0, f)
         if p == "std::iter::Iterator::position" and isinstance(f, (Closure, FnItem)) and isinstance(x, Adt) \
                 and x.adt == "sim::SliceIter":
             seq, i = x.fields[0], x.fields[1]
@@ -2041,6 +2083,19 @@ class Sim:
             lf = self.find_fn(c["resolved"], c.get("resolved_crate")) if c.get("resolved") else None
             if lf is not None and not lf.derived and c.get("resolved_kind", "Item") == "Item":
                 return None
+            def _byteseq(v):
+                if isinstance(v, Bytes):
+                    return list(v.b)
+                if isinstance(v, Tup) and v.fields and all(isinstance(x, int) for x in v.fields):
+                    return list(v.fields)
+                if isinstance(v, Adt) and v.adt == "sim::Vec" and all(isinstance(x, int) for x in v.fields[0].fields):
+                    return list(v.fields[0].fields)
+                return None
+            if type(a) is not type(b) or isinstance(a, Adt) and a.adt == "sim::Vec":
+                sa, sb = _byteseq(a), _byteseq(b)
+                if sa is not None and sb is not None:
+                    r = sa == sb
+                    return ("value", int(r if c.get("method") == "eq" else not r))
             if isinstance(a, Flt) and isinstance(b, Flt):
                 r = a.v == b.v          # IEEE equality
                 return ("value", int(r if c.get("method") == "eq" else not r))
